@@ -1015,6 +1015,8 @@ def settle_hits(run, sink, src, writers_tbl, cases, hists, nshard):
                     mine = [h for h in hists if h["id"] % nshard == seq[1] % nshard and h["id"] < seq[1]]
                     full = {"histories": [{"collections": h["collections"], "writers": h["writers"], "ops": h["ops"]} for h in mine] + rp["histories"],
                             "query": rp["query"]}
+                    if rp.get("inter"):
+                        full["inter"] = True
                 budget[0] -= 1
                 got = fires(kind, full)
                 if got:
